@@ -14,7 +14,7 @@ from ..cfg import CFG
 from ..errors import AnalysisError
 from ..model import FuncInfo, dotted, src, walk_scope
 from ..report import Context
-from ..util import attr_store_sites, calls_in, exactly_once_between, is_self_attr, node_for, normaliser, parse_expr, path_text, returns_of
+from ..util import return_leaves, attr_store_sites, calls_in, exactly_once_between, is_self_attr, node_for, normaliser, parse_expr, path_text, returns_of
 
 LEVEL_TEXT = (
     "Static analysis of /repo's source (no execution): decides the structural clauses of C09 - "
@@ -229,7 +229,7 @@ def r2_rl_bootstrap(ctx: Context, product_decided: bool = False) -> None:
     gns = ctx.func(f"{RL}.get_next_sampler")
     g = CFG(gns.node)
     rets = returns_of(gns)
-    ctx.floor("R2", "return in RLScheduler.get_next_sampler", len(rets), 2)
+    ctx.floor("R2", "return in RLScheduler.get_next_sampler", len(rets), 1)
     n = normaliser(prog, gns)
     boot_attr, unpack, seq_name = _bootstrap_index_attr(ctx)
     boot = str(n.rat(parse_expr(f"self._samplers[self.{boot_attr}]")))
@@ -256,30 +256,29 @@ def r2_rl_bootstrap(ctx: Context, product_decided: bool = False) -> None:
                                                 for el in (s_.targets if isinstance(s_, ast.Assign) else [s_.target]))
         ctx.check(set_in_update, "R2.guard", "RLScheduler.get_next_sampler:first-batch-test", f"get_next_sampler branches on `{guard} is None`, which update() sets",
                   f"the first-batch test reads `{guard}`, which update() never sets: every batch looks like the first", gns, tests[0].ast)
-    for r in rets:
-        node = g.nodes_of(r)[0] if g.nodes_of(r) else None
-        if node is None or not tests:
-            continue
-        got = str(n.rat(r.value)) if r.value is not None else "None"
-        deps = g.control_closure(node)
+    leaves = return_leaves(gns)
+    if leaves is None:
+        raise AnalysisError(f"{gns.loc(gns.node)}: get_next_sampler is not an if/else tree of returns; cannot decide R2")
+    test_texts = {src(t.ast): isinstance(t.ast.ops[0], ast.Is) for t in tests}  # type: ignore[union-attr]
+    for conds, leaf in (leaves if tests else []):
+        got = str(n.rat(leaf))
         first_batch = None
-        for t, lab in deps:
-            if t in tests:
-                is_none = isinstance(t.ast.ops[0], ast.Is)  # type: ignore[union-attr]
-                first_batch = (lab == "true") == is_none
+        for tst, truth in conds:
+            if src(tst) in test_texts:
+                first_batch = truth == test_texts[src(tst)]
         if first_batch is None:
-            ctx.fail("R2.guard", f"RLScheduler.get_next_sampler:return:{got}", "a return of get_next_sampler is not controlled by the first-batch test", gns, r)
+            ctx.fail("R2.guard", f"RLScheduler.get_next_sampler:return:{got}", "a return of get_next_sampler is not controlled by the first-batch test", gns, gns.node)
             continue
         if first_batch:
             ctx.check(got == boot, "R2.bootstrap", "RLScheduler.get_next_sampler:first-batch-return",
-                      "first batch returns samplers[<index of the bootstrap sampler>]", f"first batch returns {got}, expected {boot}", gns, r)
+                      "first batch returns samplers[<index of the bootstrap sampler>]", f"first batch returns {got}, expected {boot}", gns, gns.node)
         else:
-            ok = isinstance(r.value, ast.Subscript) and str(n.rat(r.value.value)) == "self._samplers"
-            idx = r.value.slice if isinstance(r.value, ast.Subscript) else None
+            ok = isinstance(leaf, ast.Subscript) and str(n.rat(leaf.value)) == "self._samplers"
+            idx = leaf.slice if isinstance(leaf, ast.Subscript) else None
             from_queue = idx is not None and _comes_from_queue_get(gns, n, idx, {a for (o, a) in sm.queue_of if o == "sched"})
             ctx.check(ok and from_queue, "R2.later", "RLScheduler.get_next_sampler:later-return",
                       "later batches return samplers[<index received from the agent's action queue>]",
-                      f"later batches return {got}", gns, r)
+                      f"later batches return {got}", gns, gns.node)
     # the bootstrap index is stored once, from the bootstrap helper, together with the sampler sequence passed on
     cls = prog.find_class("RLScheduler")
     stores = prog.attr_stores(cls, inherited=False).get(boot_attr, [])
@@ -338,6 +337,10 @@ def _bootstrap_helper(ctx: Context) -> None:
         if kinds == ["S"]:
             seen_present = True
             ok = _is_lookup_of_halton(idx_e, env)
+            if ok is None and isinstance(idx, ast.Name):
+                ok = _loop_position_of_halton(h, idx.id)
+            if ok is None:
+                raise AnalysisError(f"{h.loc(r)}: cannot read how the present-branch index `{src(idx_e)[:60]}` is found; cannot decide R2.helper")
             ctx.check(ok, "R2.helper", "RLScheduler._add_or_get_bootstrap_sampler:present",
                       "when a HaltonSampler is present the index returned is its position in `samplers`",
                       f"present-branch index `{src(idx_e)}` is not the position of the HaltonSampler", h, r)
@@ -387,7 +390,7 @@ def _concat_parts(e: ast.expr, env: dict[str, ast.expr]) -> list[ast.expr]:
     return [e]
 
 
-def _is_lookup_of_halton(idx: ast.expr, env: dict[str, ast.expr]) -> bool:
+def _is_lookup_of_halton(idx: ast.expr, env: dict[str, ast.expr]) -> bool | None:
     # sampler_types[HaltonSampler] with sampler_types = {type(s): i for i, s in enumerate(samplers)}
     if isinstance(idx, ast.Subscript) and (dotted(idx.slice) or "").split(".")[-1] == "HaltonSampler":
         table = idx.value
@@ -408,7 +411,23 @@ def _is_lookup_of_halton(idx: ast.expr, env: dict[str, ast.expr]) -> bool:
             i, s = (src(x) for x in gen.target.elts)
             cond = " ".join(src(c) for c in gen.ifs)
             return src(ge.elt) == i and "HaltonSampler" in cond and s in cond
-    return False
+    return None
+
+
+def _loop_position_of_halton(h: FuncInfo, name: str) -> bool | None:
+    """`name` is set, inside `for i, s in enumerate(samplers)`, to `i` under a test that `s` is a HaltonSampler (type identity / equality / isinstance)."""
+    for lp in walk_scope(h.node):
+        if isinstance(lp, ast.For) and isinstance(lp.iter, ast.Call) and dotted(lp.iter.func) == "enumerate" and lp.iter.args and src(lp.iter.args[0]) == h.params[-1] \
+                and isinstance(lp.target, ast.Tuple) and len(lp.target.elts) == 2 and all(isinstance(x, ast.Name) for x in lp.target.elts):
+            i, s_ = (x.id for x in lp.target.elts)  # type: ignore[union-attr]
+            for st in ast.walk(lp):
+                if isinstance(st, ast.Assign) and len(st.targets) == 1 and isinstance(st.targets[0], ast.Name) and st.targets[0].id == name:
+                    par = getattr(st, "_parent", None)
+                    if not isinstance(par, ast.If) or st not in par.body:
+                        return False
+                    cond = src(par.test)
+                    return src(st.value) == i and "HaltonSampler" in cond and s_ in cond
+    return None
 
 
 # ---------------------------------------------------------------------------------------------- R3
